@@ -301,8 +301,8 @@ pub fn run(ctx: &mut Ctx) -> Result<(), Violation> {
     ctx.rule = "Interfaces: generichash (classic+object; unkeyed/keyed; digest 16/32/33/64), auth, onetimeauth, sha512, incremental signing+verification (classic+object). Enumerated: EVERY 2-way split of every length 0..=L2; EVERY 3-way split (i<=j, empty pieces included) of every length 0..=L3 for the 16-byte-buffer interface, and for the 128-byte-buffer interfaces every pair of cut points within 2 of {0,128,256,len} (thorough: unrestricted 3-way up to L3); plus proptest-random k-way partitions (k<=40, piece sizes biased to {0,1,B-1,B,B+1,2B}) of messages up to 8 KiB with shrinking. Oracle: incremental == dryoc one-shot == libsodium one-shot on the concatenation; signatures additionally verify incrementally. Non-trivial: >=2 non-empty pieces with a cut that is not a multiple of the block size, or an empty piece between non-empty ones; distinct = (interface,len,cuts).".into();
     ctx.assumptions = vec!["libsodium one-shot functions are the reference for the concatenated message".into()];
     let ifs = ifaces(ctx.seed);
-    let l2 = ctx.tier.pick(300usize, 600);
-    let l3_small = ctx.tier.pick(140usize, 300);
+    let l2 = ctx.tier.pick(400usize, 600);
+    let l3_small = ctx.tier.pick(200usize, 300);
     let l3_big_full = ctx.tier.pick(0usize, 300); // unrestricted 3-way for 128-byte buffers (thorough)
     let l3_near = 300usize;
     let mut items: Vec<(usize, usize)> = vec![];
@@ -381,7 +381,7 @@ pub fn run(ctx: &mut Ctx) -> Result<(), Violation> {
         3 => 0usize..700,
     ];
     let strat = (0..nif, proptest::collection::vec(piece, 0..40), any::<u64>(), 0usize..300);
-    let n = ctx.tier.pick(4000u32, 200_000);
+    let n = ctx.tier.pick(40_000u32, 400_000);
     let ifs2 = ifs.clone();
     run_prop("C08", "chunking", seed, n, strat.prop_map(move |(ii, pieces, fill, tail)| {
         let mut cuts = vec![];
